@@ -763,6 +763,14 @@ def _match_impl(prog, T, trait, meth, allow_any_trait=False, trait_raw=None):
                 or [c for c in c2 if c[3] and sig_match(c[3].lstrip('&').split('<')[0], ta.lstrip('&').split('<')[0])]
             if c3:
                 c2 = c3
+            elif all(c[3] for c in c2):
+                c2 = []         # every candidate names a different argument type: none of them is this impl
+    elif len(c2) == 1 and trait_raw and c2[0][3]:
+        ta = _trait_arg(trait_raw)
+        if ta and not (sig_match(c2[0][3], ta) or sig_match(c2[0][3].lstrip('&'), ta.lstrip('&')) or sig_match(c2[0][3].lstrip('&').split('<')[0], ta.lstrip('&').split('<')[0])):
+            # generic impls (`impl<T> From<T> for X`) keep matching: only reject when both are concrete paths
+            if not re.fullmatch(r'&?[A-Z]\w?', c2[0][3]):
+                c2 = []
     if len(c2) > 1:
         # disambiguate by qualifier vs impl file / declared module
         qual = T.split('::')[:-1]
